@@ -1,0 +1,92 @@
+//go:build verif
+
+// Verification hooks (build tag `verif`): feed raw datagrams to HandleMsg4/HandleMsg6 and
+// capture what would be written to the socket. Nothing here exists in a normal build.
+
+package server
+
+import (
+	"net"
+	"sync"
+
+	"golang.org/x/net/ipv4"
+	"golang.org/x/net/ipv6"
+
+	"github.com/coredhcp/coredhcp/handler"
+	"github.com/insomniacslk/dhcp/dhcpv4"
+)
+
+// VerifSink4 receives (payload, control message, destination) instead of the socket.
+type VerifSink4 func(payload []byte, cm *ipv4.ControlMessage, dst net.Addr)
+
+// VerifSink6 receives (payload, control message, destination) instead of the socket.
+type VerifSink6 func(payload []byte, cm *ipv6.ControlMessage, dst net.Addr)
+
+var verifSinks sync.Map // *listener4 / *listener6 -> sink
+
+// WriteTo shadows the promoted (*ipv4.PacketConn).WriteTo.
+func (l *listener4) WriteTo(b []byte, cm *ipv4.ControlMessage, dst net.Addr) (int, error) {
+	if s, ok := verifSinks.Load(l); ok {
+		s.(VerifSink4)(append([]byte(nil), b...), cm, dst)
+		return len(b), nil
+	}
+	return l.PacketConn.WriteTo(b, cm, dst)
+}
+
+// WriteTo shadows the promoted (*ipv6.PacketConn).WriteTo.
+func (l *listener6) WriteTo(b []byte, cm *ipv6.ControlMessage, dst net.Addr) (int, error) {
+	if s, ok := verifSinks.Load(l); ok {
+		s.(VerifSink6)(append([]byte(nil), b...), cm, dst)
+		return len(b), nil
+	}
+	return l.PacketConn.WriteTo(b, cm, dst)
+}
+
+// VerifListener4 is a listener4 without a socket.
+type VerifListener4 struct{ l *listener4 }
+
+// VerifListener6 is a listener6 without a socket.
+type VerifListener6 struct{ l *listener6 }
+
+// NewVerifListener4 builds a listener around the given handlers and interface.
+func NewVerifListener4(handlers []handler.Handler4, ifi net.Interface, sink VerifSink4) *VerifListener4 {
+	l := &listener4{Interface: ifi, handlers: handlers}
+	verifSinks.Store(l, sink)
+	return &VerifListener4{l}
+}
+
+// NewVerifListener6 builds a listener around the given handlers and interface.
+func NewVerifListener6(handlers []handler.Handler6, ifi net.Interface, sink VerifSink6) *VerifListener6 {
+	l := &listener6{Interface: ifi, handlers: handlers}
+	verifSinks.Store(l, sink)
+	return &VerifListener6{l}
+}
+
+// Close forgets the sink.
+func (v *VerifListener4) Close() { verifSinks.Delete(v.l) }
+
+// Close forgets the sink.
+func (v *VerifListener6) Close() { verifSinks.Delete(v.l) }
+
+// verifBuf copies the datagram into a buffer of the server's pool, as Serve receives it.
+func verifBuf(data []byte) []byte {
+	b := *bufpool.Get().(*[]byte)
+	b = b[:MaxDatagram]
+	n := copy(b, data)
+	return b[:n]
+}
+
+// Handle runs HandleMsg4 on the datagram (synchronously).
+func (v *VerifListener4) Handle(data []byte, oob *ipv4.ControlMessage, peer *net.UDPAddr) {
+	v.l.HandleMsg4(verifBuf(data), oob, peer)
+}
+
+// Handle runs HandleMsg6 on the datagram (synchronously).
+func (v *VerifListener6) Handle(data []byte, oob *ipv6.ControlMessage, peer *net.UDPAddr) {
+	v.l.HandleMsg6(verifBuf(data), oob, peer)
+}
+
+// VerifSendEthernet exposes sendEthernet.
+func VerifSendEthernet(iface net.Interface, resp *dhcpv4.DHCPv4) error {
+	return sendEthernet(iface, resp)
+}
